@@ -4,6 +4,8 @@ import (
 	"fmt"
 	"go/constant"
 	"go/types"
+	"os"
+	"runtime/debug"
 	"strings"
 
 	"golang.org/x/tools/go/ssa"
@@ -66,7 +68,12 @@ func (v Iter) GoType() types.Type { return v.GT }
 
 type unsupported struct{ msg string }
 
-func fail(format string, args ...any) { panic(unsupported{fmt.Sprintf(format, args...)}) }
+func fail(format string, args ...any) {
+	if os.Getenv("EVYVC_STACK") != "" {
+		debug.PrintStack()
+	}
+	panic(unsupported{fmt.Sprintf(format, args...)})
+}
 
 func qual(p *types.Package) string { return p.Name() }
 
@@ -943,6 +950,8 @@ func (st *State) markBoundary() {
 	b.noSide = true
 	b.boundary = nil
 	st.boundary = b
+	// object invariants assumed so far were about the previous boundary heap; they may be assumed afresh in this one
+	st.invSeen = map[string]bool{}
 }
 
 // elemPrefix is the heap class of the elements of a slice with the given backing-store reference:
